@@ -137,7 +137,19 @@ def main(argv=None):
         print("replay does not reproduce on the current tree: %s" % (res.get("detail") or r.get("message"),))
         return 0
 
-    mod = importlib.import_module("dynverif.h_" + prop.lower())
+    try:
+        mod = importlib.import_module("dynverif.h_" + prop.lower())
+    except Exception as ex:       # e.g. the warm-up of a harness fails on the current tree: not a verdict
+        import traceback
+        print("INCONCLUSIVE harness module for %s cannot be loaded on the current tree: %s" %
+              (prop, "".join(traceback.format_exception_only(type(ex), ex)).strip()))
+        # if the failure comes from the code under test itself, say where
+        tb = traceback.extract_tb(ex.__traceback__)
+        repo_frames = [f for f in tb if f.filename.startswith("/repo/")]
+        if repo_frames:
+            f = repo_frames[-1]
+            print("  raised in %s:%d (%s) during the harness warm-up on a concrete graph" % (f.filename, f.lineno, f.name))
+        return 3
     reg = mod.REG
     conds = reg.select(a.tier)
     if a.only:
